@@ -4,22 +4,26 @@ import json, os
 
 HERE = os.path.dirname(os.path.abspath(__file__))
 
-TECH = "bounded model checking of the real code: Kani 0.68 #[kani::proof] harnesses over kani::any() inputs, decided by CBMC 6.11 + CaDiCaL (SAT); unwinding assertions on; counterexamples replayed natively"
+TECH = "bounded model checking of the real code: Kani 0.68 #[kani::proof] harnesses over kani::any() inputs, decided by CBMC 6.11 + CaDiCaL (SAT); unwinding assertions on; counterexamples replayed natively; inductive-step harnesses (arbitrary pre-state under a representation invariant) instead of histories where the state is a data structure; kernels that are not functions of their own are sliced as text from the current source and compiled unchanged against stand-ins (DESIGN 1.4)"
+
+SLICE = " (where the evidence says 'text, sliced': the driver cuts the text of these functions / match arms out of /repo's current source on every run and compiles it unchanged against a small stand-in environment, DESIGN 1.4)"
 
 CLAIMED = {
-    "C04": ("index kernel: VArray::abs_index / get_element / get_dimension_bounds and allocation::to_dimensions, decided for every index tuple (any i16) and every shape within the bound (1-3 dimensions, any i8 lower bound, small extents): in-range iff inside the declared box, flat mapping injective and < len, LBOUND/UBOUND = declared; store-then-load locality on INTEGER arrays of small fixed shapes (any write tuple, any read tuple, any contents)",
-            "records, STRING*n (fix_length and the FixLength emission of the generator), element conversion and by-reference routes are outside the claim (DESIGN 4/C04)", "4/C04"),
-    "C05": ("resume-address kernel (NearestStatementFinder: RESUME = greatest mark <= failing address, RESUME NEXT = least mark > it) for every non-decreasing table within the bound and every failing address; RuntimeError::get_code total over the whole enum with the QBasic codes the statement names; error conversions",
-            "the GOSUB stack, handler dispatch and context handling inside Interpreter::interpret are outside (VM runs are not symbolically executable here)", "4/C05"),
+    "C03": ("activation-stack kernel of Context, as an inductive step: from ANY state satisfying the representation invariant (<= 4 variable blocks, <= 4 activation states, <= 2 STATIC subprograms, any reference counts) each of begin_collecting_arguments, stop_collecting_arguments, stop_collecting_arguments_static, pop, push_error_handler_context, drop_arguments_for_array_allocation re-establishes the invariant, a callee runs on fresh variables, a STATIC subprogram re-enters the variables of its first activation wherever it is called from, an argument list is evaluated on the caller's variables, and no other activation or STATIC subprogram changes the variables it sees; Context::new() satisfies the invariant" + SLICE,
+            "by-reference write-back, function results, parameter conversion, SHARED/CONST resolution and the contents of the variable tables are outside (Variables, Arguments, Vec and HashMap are stand-ins for the sliced text)", "4/C03"),
+    "C04": ("index kernel: VArray::abs_index / get_element / get_dimension_bounds and allocation::to_dimensions, decided for every index tuple (any i16) and every shape within the bound (1-3 dimensions, any i8 lower bound, small extents): in-range iff inside the declared box, flat mapping injective and < len, LBOUND/UBOUND = declared; store-then-load locality on INTEGER arrays of small fixed shapes (any write tuple, any read tuple, any contents); string_utils::fix_length: a STRING * n holds exactly n characters - the text up to its first NUL, truncated or padded with blanks (texts of 0..4 characters, target lengths 0..5)",
+            "records, the FixLength emission of the generator (by-reference routes), element conversion and by-reference routes are outside the claim (DESIGN 4/C04)", "4/C04"),
+    "C05": ("resume-address kernel (NearestStatementFinder: RESUME = greatest mark <= failing address, RESUME NEXT = least mark > it) for every non-decreasing table within the bound and every failing address; RuntimeError::get_code total over the whole enum with the QBasic codes the statement names; error conversions; one iteration of the VM's fetch-execute loop (sliced text of Interpreter::interpret's loop body with the error dispatch, of the control arms of interpret_one and of take_last_error_address) from ANY machine state - GOSUB/return-address stacks of depth 0..3, any handler setting, ERR, pending error, statement table of 1..4 marks - on any of HALT, GOSUB, RETURN [label], GOTO, failing statements, ON ERROR GOTO / RESUME NEXT / GOTO 0, RESUME / RESUME NEXT / RESUME label, compared with a reference step written from the property text (inductive step: runs of any length)",
+            "the loop condition, every non-control instruction, that Context behaves like the activation counter of the stand-in VM struct, loop registers surviving a GOTO and the generator's lowering of GOSUB/RETURN/ON ERROR are outside", "4/C05"),
     "C06": ("full machine width, one instance per (operation, tag pair): CastVariant::cast for all 16 numeric conversions (valid result within 0.5 / nearest, Overflow only when the rounded value does not fit), closure of Variant::{plus,minus,multiply,divide,modulo,negate,unary_not} (valid value, Overflow or DivisionByZero; integer results exact), static result type = dynamic tag",
             "that every route into a variable passes through these functions is outside; operands assumed valid (inductive step)", "4/C06"),
-    "C08": ("no panic / overflow / out-of-range index for any argument of the admissible static type in the kernels the run time relies on: RuntimeError::get_code total; do_mid, do_instr, val, variant_casts conversions, NearestStatementFinder",
+    "C08": ("no panic / overflow / out-of-range index for any argument of the admissible static type in the kernels the run time relies on: RuntimeError::get_code total; do_mid, do_instr, val, variant_casts conversions, NearestStatementFinder; string_utils::fix_length and the sliced bodies of LEFT$/RIGHT$/LTRIM$/RTRIM$/UCASE$/LCASE$ never fail internally on text with multi-byte characters",
             "that the linter rules out what the run time assumes (the larger half of the statement) is outside: linter and generator cannot be executed symbolically", "4/C08"),
     "C09": ("identity primitives, for names of every length up to the tokenizer's 40-character limit: cmp_str equal iff equal after ASCII case folding, antisymmetric; Eq/Hash agreement of CaseInsensitiveString (recording hasher); keyword lemma cmp_str(p,s) = cmp_str(p,fold(s)) plus sortedness of the keyword table; DEFtype table ignores case; CR, LF and CRLF advance the row once",
             "blanks, colons, comments and program-level invariance need the parser: outside", "4/C09"),
     "C10": ("decision tables: should_flip_binary for all 169 operator pairs against the standard precedence ranks, should_flip_unary for all 26; &H/&O digit strings of fixed length with symbolic digits denote their 16/32-bit two's complement value; a unary minus directly before a literal gives the exact negated value in the narrowest type, for every INTEGER/LONG/SINGLE/DOUBLE literal value",
             "the rotation driver (binary_expr recursion over the Expression tree) and decimal literals are outside (undecided in every formulation)", "4/C10"),
-    "C11": ("position arithmetic: create_row_col_view is the row/column reference for every text over {x,CR,LF} within the bound; StringView::position inside the text or at its end; error envelopes carry [error position, call sites innermost first] and drain the VM stack",
+    "C11": ("position arithmetic: create_row_col_view is the row/column reference for every text over {x,CR,LF} within the bound; StringView::position inside the text or at its end; error envelopes carry [error position, call sites innermost first] and drain the VM stack; the call-site stack through one VM step from any state with 0..2 active call sites (sliced text, as C05): PushStack/PopStack keep it innermost first, an unhandled error carries [its position, the call sites innermost first]",
             "that positions survive parser -> linter -> generator is outside", "4/C11"),
     "C12": ("operator typing table against the dynamic operations for numeric types: whenever cast_binary_op_q accepts an operator on two numeric types, evaluating it on any two values of those types never yields TypeMismatch; can_cast_to implies cast never yields TypeMismatch",
             "string operands, built-in argument rules, which sub-expressions the post-conversion passes visit, verdict stability under renaming: linter traversal, outside", "4/C12"),
@@ -27,8 +31,8 @@ CLAIMED = {
             "DIM AS / duplicate definitions / SHARED / parameters / CONST scoping (hash-map scopes over the AST) are outside", "4/C13"),
     "C16": ("device and statement state machine: WritePrinter column = bytes since the last CR/LF for every text within the bound, comma lands on the next multiple of 14, println resets; PrintState newline rule for every history of <= 3 items",
             "rendering of numbers (format!), PRINT USING, per-file devices and the lowering of PRINT are outside", "4/C16"),
-    "C17": ("MID$, INSTR, VAL kernels: do_mid = substring reference for every string within the bound and every start/count, split law; do_instr = least position >= start; argument conversions reject negative counts / non-positive starts for every INTEGER",
-            "LEFT$/RIGHT$/LTRIM$/RTRIM$/UCASE$/LCASE$/SPACE$/STRING$/LEN are inline in run<S: InterpreterTrait> and need the VM context: outside; non-ASCII strings outside", "4/C17"),
+    "C17": ("MID$, INSTR, VAL kernels: do_mid = substring reference for every string within the bound and every start/count, split law; do_instr = least position >= start; argument conversions reject negative counts / non-positive starts for every INTEGER; LEFT$, RIGHT$, UCASE$, LCASE$, LTRIM$, RTRIM$, SPACE$, STRING$(n, code): the sliced body of each run() on an argument array - exact prefix / suffix for each (length, count), only letters of the other case change, exactly the leading / trailing blanks go (texts with TAB and LF included), n blanks / n copies, Illegal function call for every negative count and every code outside 0..255; INSTR with needles of up to 3 (4 thorough) letters",
+            "STRING$(n, text$), LEN (argument taken as &Variant: Kani 0.68 loses a String inside an enum with float variants), STR$ (format!), the concatenation laws and that Context delivers the arguments in order are outside", "4/C17"),
     "C19": ("integers full width (all 2^16 values / 2^32 pairs): AND/OR/NOT = machine bit operations, to/from bytes = little endian, PEEK/POKE byte view; CVD decoder = f64::from_le_bytes for every normal double and +-0; MKD$ encoder parts per binary exponent with all 52 mantissa bits symbolic",
             "the assembly of the encoder parts (and so CVD(MKD$(x)) = x end to end), subnormals, inf/NaN are outside; f64::powi(2.0,k) is stubbed by the exact power of two", "4/C19"),
     "C20": ("every combinator applied to arbitrary sub-parsers that satisfy the contract K (success never moves backwards, soft failure leaves the position, fatal stays fatal) satisfies K itself and has its documented meaning: an inductive step that covers parser expressions of any depth; primitives decided directly on symbolic inputs",
@@ -38,7 +42,6 @@ CLAIMED = {
 NOT_APPLICABLE = {
     "C01": "needs a symbolic program through parser+linter+generator+VM; none of the four is symbolically executable here (HashMap scopes, boxed combinators, recursive AST drop glue: probes in DESIGN 2); the arithmetic/typing/precedence kernels it relies on are decided under C06, C12, C10",
     "C02": "about statement trees under nesting through the code generator; symbolic trees blow up (AST drop glue, format!-built labels, HashMap label resolver); concrete trees would be enumeration, not solver-based checking",
-    "C03": "by-reference write-back and function results need VM runs (no verdict at 13 instructions in 900 s); the Context activation-stack kernel gave no verdict in 900 s / 400 s / 600 s in three formulations",
     "C07": "totality of parser+linter over all texts; same obstacle as C01 (the position arithmetic is under C11, the literal scanners under C10)",
     "C14": "ConstEvaluator::eval_const probed directly: no verdict in 500 s / 11 GB even for `a + b` over two symbolic INTEGER literals (merged Variant tags -> recursive drop glue); the shared arithmetic is decided under C06",
     "C15": "well-formedness of generated code for all programs; the generator and label resolver cannot run on symbolic programs; checking enumerated concrete outputs would be a different technique",
